@@ -12,8 +12,9 @@ OUT = os.path.join(ROOT, "out")
 HARNESS = os.path.join(ROOT, "harness")
 
 
-class ToolError(Exception):
-    pass
+import sys
+sys.path.insert(0, os.path.dirname(os.path.abspath(__file__)))
+from vlib import ToolError  # noqa: E402
 
 
 def generate(module, cfg, dest, tag, workers=4, timeout=3000):
